@@ -16,6 +16,9 @@ TABLE = [
     (r"std::mutex\b", "verif::mutex"),
     (r"std::this_thread::", "verif::this_thread::"),
     (r"std::thread\b", "verif::thread"),
+    (r"std::future_status\b", "verif::future_status"),
+    (r"std::future\b", "verif::future"),
+    (r"std::promise\b", "verif::promise"),
     (r"std::chrono::steady_clock::now\s*\(\s*\)", "verif::steady_now()"),
     (r"std::chrono::system_clock::now\s*\(\s*\)", "verif::system_now()"),
 ]
